@@ -83,6 +83,29 @@ def to_py(ts):
 # ------------------------------------------------------------------------------------------
 # the documented trading rules, end to end (C08): plain python + Fractions
 # ------------------------------------------------------------------------------------------
+import contextlib
+
+
+@contextlib.contextmanager
+def process_tz(name):
+    """Run a block with the PROCESS-local time zone set to `name` (TZ + tzset), as on a user's workstation; the
+    library documents UTC instants, so nothing it does may depend on this.  Restored afterwards."""
+    import os
+    import time
+    old = os.environ.get('TZ')
+    try:
+        if name:
+            os.environ['TZ'] = name
+            time.tzset()
+        yield
+    finally:
+        if old is None:
+            os.environ.pop('TZ', None)
+        else:
+            os.environ['TZ'] = old
+        time.tzset()
+
+
 class Ambiguous(Exception):
     """A floor / rounding boundary was hit exactly: the documented rule does not decide it."""
 
